@@ -471,12 +471,12 @@ def rule_r5(F, rep):
 
 
 def run(F, rep, tier):
-    rule_r1(F, rep)
-    rule_r2(F, rep)
-    rule_r3(F, rep)
-    rule_r4(F, rep)
-    rule_r5(F, rep)
+    rep.attempt(rule_r1, F, rep)
+    rep.attempt(rule_r2, F, rep)
+    rep.attempt(rule_r3, F, rep)
+    rep.attempt(rule_r4, F, rep)
+    rep.attempt(rule_r5, F, rep)
     from . import c14
-    c14.rule_r8(F, rep)      # error spans end at the lexer cursor (inside the source)
+    rep.attempt(c14.rule_r8, F, rep)      # error spans end at the lexer cursor (inside the source)
     rep.assume("the SpanId bit-packing round trip, line/column computation and rendering inside `sourceannot` are not decided")
     return EXPLANATION
